@@ -71,6 +71,8 @@ def make_data(desc, live_base=None):
     S = S + rs.randn(d) * float(desc.get("offset", 1.0))
     if desc.get("global_scale"):
       S = S * float(desc["global_scale"])
+  if desc.get("int_dtype"):     # integer-valued measurements kept in an integer dtype
+    S = np.round(S * 100.0)
   if desc.get("int_rows"):      # some rows hold whole numbers only
     ri = np_stream(seed, "int-rows")
     mk = ri.rand(N) < float(desc["int_rows"])
@@ -82,7 +84,7 @@ def make_data(desc, live_base=None):
       S[i] = S[j]
   D = Data()
   D.desc = desc
-  D.S = np.ascontiguousarray(S, dtype=float)
+  D.S = np.ascontiguousarray(S, dtype=np.int64 if desc.get("int_dtype") else float)
   D.N, D.n, D.d, D.classes = N, n, d, c
   return _finish(D, desc, yS.astype(int))
 
@@ -173,6 +175,10 @@ def _make_tuples(D, m, seed):
     py.append(1 if pos else -1)
   D.pairs_idx = np.array(pairs, dtype=int).reshape(-1, 2)
   D.pairs_y = np.array(py, dtype=int)
+  if D.desc.get("one_class_pairs"):      # a pair set that happens to hold one kind of pair only
+    keep = D.pairs_y == int(D.desc["one_class_pairs"])
+    if keep.sum() >= 4:
+      D.pairs_idx, D.pairs_y = D.pairs_idx[keep], D.pairs_y[keep]
   trip = []
   quad = []
   for t in range(m):
